@@ -14,10 +14,10 @@ SCHEMAS = ["prim_int", "prim_long", "prim_string", "prim_bytes", "prim_double", 
            "enum", "fixed", "rec_flat", "rec_floats", "rec_defaults", "rec_defaults2", "pair_array_int", "pair_map_long",
            "pair_array_record", "pair_map_union", "union_prims", "union_two_recs", "union_named_mix", "union_overlap",
            "pair_field_union", "pair_field_null", "pair_field_fixed", "pair_field_enum", "chain_rec_union_rec_arr",
-           "ref_after_def", "ns_inherit", "rec_list", "union_in_array_named", "rec_dictnull"]
+           "ref_after_def", "ns_inherit", "rec_list", "union_in_array_named", "rec_dictnull", "enum_default", "rec_enum_default"]
 QUICK = ["prim_int", "prim_long", "prim_double", "enum", "fixed", "rec_flat", "rec_defaults", "pair_array_int",
          "pair_map_long", "union_named_mix", "union_two_recs", "pair_field_union", "pair_field_null", "rec_list",
-         "pair_array_record", "rec_dictnull"]
+         "pair_array_record", "rec_dictnull", "enum_default", "rec_enum_default"]
 
 
 def base_samples(c, seed, n):
